@@ -111,6 +111,9 @@ REP = {v: k for k, v in EP.items()}
 XOPT = {
     "x1": hdr.SOMEIPSDConfigOption(configs=(("k", "v"),)),
     "x2": hdr.SOMEIPSDLoadBalancingOption(priority=1, weight=2),
+    # SD endpoint options naming the SD endpoint of one of the peers (a message may carry one that is not its sender's)
+    "sd1": hdr.IPv4SDEndpointOption(ipaddress.IPv4Address("192.0.2.1"), hdr.L4Protocols.UDP, 30490),
+    "sd2": hdr.IPv4SDEndpointOption(ipaddress.IPv4Address("192.0.2.2"), hdr.L4Protocols.UDP, 30490),
 }
 ROPT = dict(REP)
 ROPT.update({v: k for k, v in XOPT.items()})
@@ -271,6 +274,9 @@ class Recorder:
         self._last_idle = None
 
     def _exc(self, context):
+        from .vloop import InjectedSendError
+        if isinstance(context.get("exception"), InjectedSendError):     # a failure the harness injected itself: not an observation
+            return True
         self.emit(k="exc", what=repr(context.get("exception") or context.get("message"))[:120])
         return True
 
@@ -340,8 +346,13 @@ class ServerL(sd.ServerServiceListener):
         if not ok:
             raise sd.NakSubscription
 
+    on_unsubscribed = None      # optional hook: an application that reacts to a lost client from inside the callback
+
     def client_unsubscribed(self, subscription, source):
         self.rec.emit(k="out", op="unsubscribed", inst=self.name, sub=abs_sub(subscription), src=addr_name(source))
+        if self.on_unsubscribed:
+            hook, self.on_unsubscribed = self.on_unsubscribed, None
+            hook()
 
 
 class RandStub:
